@@ -166,7 +166,12 @@ void Ctx::c02() {
                             for (auto& sp : s.broker.sent)
                                 if (sp.reply_to >= 0 && std::find(rs.begin(), rs.end(), sp.reply_to) != rs.end() && sp.delivered_seq && sp.delivered_seq < nc.seq_established &&
                                     (sp.pkt.type == PUBACK || sp.pkt.type == PUBCOMP || sp.pkt.type == SUBACK || sp.pkt.type == UNSUBACK)) acked_before = true;
-                            if (!acked_before)
+                            // bytes the client handed to the transport on this connection which never reached the broker
+                            // (short write, then the connection was replaced) cannot be inspected: no verdict
+                            size_t got = 0; for (int ri : recv_by_conn[ci]) got = std::max(got, s.broker.recv[ri].off_end);
+                            bool unseen = false;
+                            for (auto& g2 : s.net.groups) if (g2.conn == (int)ci && g2.seq_start < d->seq && g2.off_end > got) unseen = true;
+                            if (!acked_before && !unseen)
                                 fail("C02", "not_retransmitted_on_next_connection", opstr(o) + " had no delivered acknowledgement, connection " + std::to_string(ci) +
                                      " (after heal) carried client traffic but not this packet");
                         }
@@ -421,6 +426,72 @@ void Ctx::online() {
         }
     }
 
+    // ------------------------------------------------------------------ C07, progress half
+    // "Throttled messages are sent as soon as quota is available again." In virtual time a correct client reacts to a
+    // freed slot at once; the only things that may hold a waiting PUBLISH back are the limit itself, a write that the
+    // transport has not completed yet, a stalled process, or the connection going away. A QoS>0 publish that was
+    // initiated on an established connection with an announced Receive Maximum and is handed to the transport only after
+    // a quiet period of 3 s in which none of these applied was waiting for some unrelated trigger (the next PINGREQ, the
+    // next request) to be sent at all.
+void Ctx::c07() {
+        if (relaxed_witness() || hostile_run) return;
+        auto& B = s.broker;
+        constexpr ns_t QUIET = 3 * SEC;
+        for (auto& [opid, rs] : pub_receipts) {
+            auto& o = s.ops[opid];
+            if (o.qos == 0 || rs.empty() || o.caller_cancelled) continue;
+            auto& r0 = B.recv[rs.front()];
+            int ci = r0.conn;
+            auto* bc = B.bc(ci);
+            if (!bc || bc->connack_sent_idx < 0 || !bc->caps.recv_max || !r0.first_group) continue;
+            auto& nc = *s.net.conns[ci];
+            if (nc.transport_fault || bc->hostile_touched || nc.blackhole) continue;
+            auto& ca = B.sent[bc->connack_sent_idx];
+            if (!ca.delivered_seq) continue;
+            ns_t t_ca = -1;
+            for (auto& l : s.logs) if (l.k == LogRec::connack && l.rc == 0 && l.seq >= ca.delivered_seq) { t_ca = l.t; break; }
+            if (t_ca < 0 || o.init_t < t_ca) continue;              // queued before this connection was up: part of a resend
+            ns_t tw = o.init_t, tr = s.net.groups[r0.first_group - 1].t_start;
+            if (tr - tw < QUIET) continue;
+            if (multi_gen_active(o.init_seq, r0.seq) || boundary_between(o.init_seq, r0.seq)) continue;
+            int R = *bc->caps.recv_max;
+            // busy intervals inside [tw, tr]
+            std::vector<std::pair<ns_t, ns_t>> busy;
+            {   // limit reached, as the broker sees it (acknowledgements count from their delivery to the client)
+                std::vector<std::pair<ns_t, int>> ev;
+                for (int ri : recv_by_conn[ci]) {
+                    auto& r = B.recv[ri];
+                    if (!r.decode_err.empty() || r.pkt.type != PUBLISH || r.pkt.qos == 0) continue;
+                    ev.push_back({r.t, +1});
+                    ns_t end = -1;
+                    for (int si : bc->sent) { auto& sp = B.sent[si];
+                        if (sp.pkt.pid != r.pkt.pid || sp.seq < r.seq || !sp.delivered_seq) continue;
+                        if (sp.pkt.type == PUBACK || sp.pkt.type == PUBCOMP || (sp.pkt.type == PUBREC && sp.pkt.rc >= 0x80)) { end = sp.delivered_t; break; } }
+                    if (end >= 0) ev.push_back({end, -1});
+                }
+                std::sort(ev.begin(), ev.end());
+                int n = 0; ns_t from = -1;
+                for (auto& e : ev) { n += e.second; if (n >= R && from < 0) from = e.first; if (n < R && from >= 0) { busy.push_back({from, e.first}); from = -1; } }
+                if (from >= 0) busy.push_back({from, tr});
+            }
+            for (auto& g : s.net.groups) if (g.conn == ci && g.t_start < tr) busy.push_back({g.t_start, g.done ? g.t_done : tr});   // a write the transport has not completed
+            for (auto& m : s.marks) if (m.kind == MarkKind::stall) busy.push_back({m.t, m.t + (ns_t)m.arg});
+            std::sort(busy.begin(), busy.end());
+            ns_t cur = tw; bool quiet = false; ns_t qfrom = 0;
+            for (auto& b : busy) {
+                if (b.second <= cur) continue;
+                if (b.first > cur && std::min(b.first, tr) - cur >= QUIET) { quiet = true; qfrom = cur; break; }
+                cur = std::max(cur, b.second);
+                if (cur >= tr) break;
+            }
+            if (!quiet && cur < tr && tr - cur >= QUIET) { quiet = true; qfrom = cur; }
+            if (quiet)
+                fail("C07", "throttled_publish_delayed", opstr(o) + " (initiated at t=" + std::to_string(tw / 1000000) + " ms on connection " + std::to_string(ci) + ", Receive Maximum " + std::to_string(R) +
+                     ") was handed to the transport only at t=" + std::to_string(tr / 1000000) + " ms although from t=" + std::to_string(qfrom / 1000000) +
+                     " ms on quota was available, no write was outstanding and nothing stalled for 3 s");
+        }
+    }
+
     // ------------------------------------------------------------------ C08
 void Ctx::c08() {
         struct Hold { int op; uint64_t from; };
@@ -533,7 +604,7 @@ std::vector<Violation> check_all(Sim& s, const std::string& only) {
     bool hostile = s.plan.knobs.profile == "hostile";
     if (!hostile) c.online();
     c.c05(); c.c02(); c.c01(); c.c14(); c.c17();
-    if (!hostile) { c.c03(); c.c06(); c.c08(); c.c04(); c.c10(); c.c11(); c.c12(); c.c13(); c.c09(); c.c15(); c.c18(); }
+    if (!hostile) { c.c03(); c.c06(); c.c07(); c.c08(); c.c04(); c.c10(); c.c11(); c.c12(); c.c13(); c.c09(); c.c15(); c.c18(); }
     c.c19();
     if (s.livelock) c.fail("C19", "livelock", "more than 200000 handler steps at one virtual instant");
     return c.out;
